@@ -257,6 +257,20 @@ where
                 });
                 Ok("ok".into())
             }
+            "LEVELDOWN" => {
+                // C08: one adjacent level swap (levels i and i+1) through the public
+                // `oxidd_reorder::level_down`, bracketed by `Manager::reorder` as its contract demands
+                let i: LevelNo = tok[1].parse().unwrap();
+                let n = self.mref.with_manager_shared(|m| m.num_levels());
+                if i + 1 >= n {
+                    return Some(Err("skip".into()));
+                }
+                self.mref.with_manager_exclusive(|m| {
+                    // SAFETY: inside the closure of `reorder`, `m` derives from `&mut M`, no concurrent access
+                    m.reorder(|m| unsafe { oxidd_reorder::level_down(&*m, i) })
+                });
+                Ok("ok".into())
+            }
             "EQ" => match (self.get(tok[1]), self.get(tok[2])) {
                 (Ok(a), Ok(b)) => Ok(format!(
                     "eq={} cmp={:?} hasheq={} cmprev={:?}",
